@@ -111,11 +111,11 @@ TrBuild ==
   /\ Build(Ev.sid, Ev.batch, Ev.mode)
   /\ Step("built", CheckObs(segs'[Ev.sid].c, Ev.obs))
 
-\* a failed build is explained only by a rejected batch
+\* a failed build is explained only by a rejected batch or an injected engine failure
 TrBuildFail ==
   /\ IsEv("buildfail")
   /\ BuildRejected
-  /\ Step("buildfail", IfBad(~Ev.rejected \/ Ev.panic # "", <<"unexplained-failure", Ev.panic>>))
+  /\ Step("buildfail", IfBad(~(Ev.rejected \/ Ev.engine) \/ Ev.panic # "", <<"unexplained-failure", Ev.panic>>))
 
 CheckFooter(c, foot) ==
   IfBad(foot.n # Count(c), <<"footer-numdocs", foot.n>>)
@@ -150,7 +150,8 @@ TrMerge ==
          tag == IF zero THEN "merge-zero" ELSE "merge"
      IN
      IF Ev.err # "" \/ Ev.panic # ""
-     THEN UNCHANGED <<segs, files, lcm>> /\ Step(tag, {<<"merge-error", Ev.err, Ev.panic>>} \cup IfBad(Ev.exists, <<"file-left">>))
+     THEN UNCHANGED <<segs, files, lcm>>
+          /\ Step(tag, IfBad(~Ev.engine \/ Ev.panic # "", <<"merge-error", Ev.err, Ev.panic>>) \cup IfBad(Ev.exists, <<"file-left">>))
      ELSE /\ Merge(Ev.file, Ev.ins, Ds, Ev.mode)
           /\ Step(tag,
                IfBad(Ev.maps # MergedMaps(cs, Ds), <<"maps", Ev.maps>>)
@@ -175,6 +176,15 @@ TrObs ==
   /\ UNCHANGED <<segs, files, lcm>>
   /\ Step("concurrent", CheckObs(segs[Ev.sid].c, Ev.obs))
 
+\* the n-th call of an engine operation was made to fail during a build or a merge: the operation
+\* reports an error, leaves no file and releases every native index (OutFile: EngineSurfaces, ErrMeansNoFile)
+TrEngFail ==
+  /\ IsEv("engfail")
+  /\ UNCHANGED <<segs, files, lcm>>
+  /\ Step("engfail", IfBad(~Ev.err, <<"engine-failure-swallowed", Ev.kind, Ev.op, Ev.n, Ev.class>>)
+                      \cup IfBad(Ev.exists, <<"file-left-after-engine-failure", Ev.kind, Ev.op, Ev.n, Ev.class>>)
+                      \cup IfBad(Ev.leaked # 0, <<"native-index-leaked", Ev.kind, Ev.op, Ev.n, Ev.leaked, Ev.class>>))
+
 \* informational records of the harness (pool residue, garbage collection): no specification step
 TrNote == IsEv("note") /\ UNCHANGED <<segs, files, lcm>> /\ Step("note", {})
 
@@ -185,7 +195,7 @@ TrClose ==
 
 TrEnd == l = Len(Trace) + 1 /\ l' = l + 1 /\ PrintT(<<"ACCEPTED", Len(Trace), nbad>>) /\ UNCHANGED <<segs, files, lcm, nbad>>
 
-TraceNext == TrObs \/ TrNote \/ TrDvWalk \/ TrReset \/ TrBuild \/ TrBuildFail \/ TrPersist \/ TrOpen \/ TrMerge \/ TrClose \/ TrEnd
+TraceNext == TrEngFail \/ TrObs \/ TrNote \/ TrDvWalk \/ TrReset \/ TrBuild \/ TrBuildFail \/ TrPersist \/ TrOpen \/ TrMerge \/ TrClose \/ TrEnd
 
 TraceSpec == TraceInit /\ [][TraceNext]_traceVars
 
